@@ -69,6 +69,12 @@ Definition bq_puts (h : list (nat * bq_op * qres)) : list Z :=
   flat_map (fun e => match e with (_, BPut v, _) => [v] | _ => [] end) h.
 Definition bbq_puts (h : list (nat * bbq_op * qres)) : list Z :=
   flat_map (fun e => match e with (_, QPut v, _) => [v] | _ => [] end) h.
+(* the same with the producing thread attached: (producer, value) *)
+Definition bq_puts_by (h : list (nat * bq_op * qres)) : list (nat * Z) :=
+  flat_map (fun e => match e with (t, BPut v, _) => [(t, v)] | _ => [] end) h.
+Definition bbq_puts_by (h : list (nat * bbq_op * qres)) : list (nat * Z) :=
+  flat_map (fun e => match e with (t, QPut v, _) => [(t, v)] | _ => [] end) h.
+Definition put_by (p : nat) (x : nat * Z) : bool := Nat.eqb (fst x) p.
 (* values returned by take()/drain(), in section order *)
 Definition rets {op : Type} (h : list (nat * op * qres)) : list Z :=
   flat_map (fun e => match e with (_, _, RVal v) => [v] | (_, _, RList l) => l | _ => [] end) h.
